@@ -372,9 +372,10 @@ func usersetValue(op string, cur *openfgav1.Userset) *openfgav1.Userset {
 	panic("usersetValue: " + op)
 }
 
+// (the deepest deliverable nesting, 4900, is exercised once by model scenario cond-generic-depth: it costs minutes of CPU)
 func paramTypeNestOps(thorough bool) []string {
 	var ops []string
-	for _, d := range append(depths(thorough), 4900) {
+	for _, d := range depths(false) {
 		ops = append(ops, "generic"+strconv.Itoa(d))
 	}
 	return append(ops, "generic-wide10k")
